@@ -634,3 +634,15 @@ _add(
     "C03",
     m("existing-node-without-rows-not-completed", D, "            elif not session.query(CallSubtreeTask).filter_by(call_hash=call_hash).first():", "            elif False:", "C03.5"),
 )
+_add(
+    "C15",
+    m("catch-key-results-swapped", S, "    eval_hash, args_hash = hash_args_eval(scheduler.type_registry, catch, catch_args, {})", "    args_hash, eval_hash = hash_args_eval(scheduler.type_registry, catch, catch_args, {})", "C15.7"),
+)
+_add(
+    "C12",
+    m("catch-key-without-error-classes", S, "    eval_hash, args_hash = hash_args_eval(scheduler.type_registry, catch, catch_args, {})", "    eval_hash, args_hash = hash_args_eval(scheduler.type_registry, catch, (expr, *recovers), {})", "C12.8"),
+)
+_add(
+    "C13",
+    m("wrapper-skips-callback-when-chain-settled", "redun/promise.py", "            def wrapper(result_or_error):\n                try:", "            def wrapper(result_or_error):\n                if not promise.is_pending:\n                    return\n                try:", "C13.4"),
+)
